@@ -168,11 +168,7 @@ def _run_scenario(sc):
                     if st["who"] == "human":
                         stale_initial.add(st["path"])
                     watch.discard(st["path"])
-                if st["op"] == "human_checkpoint":
-                    for p_ in (st.get("paths") or list(watch)):
-                        watch.discard(p_)
-                if st["op"] == "checkpoint":
-                    watch.clear()
+                consumed_check = st["op"] in ("human_checkpoint", "checkpoint")
                 snap = None
                 if st["op"] == "commit" and sc.get("correspond") and len(run.commits) >= 1:
                     snap = split_corr.snapshot_before_commit(run.repo)
@@ -181,6 +177,10 @@ def _run_scenario(sc):
                             watch.discard(p_)   # the flush above is a checkpoint: nothing was edited in between
                 n_before = len(run.commits)
                 run.step(st)
+                if consumed_check and watch:
+                    # a checkpoint takes pending attribution over only for the files it writes an entry for
+                    have = {e.get("file") for cp in run.repo.checkpoints() for e in cp.get("entries", [])}
+                    watch -= have
                 if snap and len(run.commits) > n_before:
                     corr.extend(split_corr.requests_after_commit(run.repo, snap, snap["base"], run.commits[-1][0]))
                 if st["op"] == "commit":
